@@ -1,7 +1,9 @@
 package main
 
 import (
+	"fmt"
 	"math/rand"
+	"sync"
 	"time"
 
 	. "vcheck/lib"
@@ -23,6 +25,7 @@ func runC06(c *Check, rng *rand.Rand) {
 		runE2(c, "race", "c06", 40*time.Minute, "--n", "300000")
 	}
 	c06wire(c, rng)
+	c06burst(c, rng)
 }
 
 // c06wire sends multi-key requests through the real proxy and compares the
@@ -152,6 +155,135 @@ func c06wire(c *Check, rng *rand.Rand) {
 		if i < 2 {
 			c.Sample(map[string]interface{}{"engine": "E1", "request": Q(raw), "fragments_on_wire": frs})
 		}
+	}
+}
+
+// c06burst: several multi-key requests per write from two clients at once, on a
+// proxy with a small request size limit (every request is below it, the burst is
+// above it); fragments are attributed by token and compared with the reference split.
+func c06burst(c *Check, rng *rand.Rand) {
+	env, err := NewEnv(EnvOpt{Masters: 6, Cfg: ProxyCfg{MsgMax: 400}})
+	must(err, "start env")
+	defer env.Close()
+	type mreq struct {
+		kind string
+		tok  string
+		keys [][]byte
+		vals [][]byte
+		raw  []byte
+	}
+	gen := func() *mreq {
+		m := &mreq{kind: []string{"mget", "del", "mset"}[rng.Intn(3)], tok: newToken("u")}
+		nk := 2 + rng.Intn(5)
+		for j := 0; j < nk; j++ {
+			k := m.tok + ":" + itoa(j)
+			if rng.Intn(3) == 0 {
+				k = "{" + SlotTag(rng.Intn(16384)) + "}" + k
+			}
+			m.keys = append(m.keys, []byte(k))
+			m.vals = append(m.vals, []byte("v"+itoa(j)))
+		}
+		args := [][]byte{randCase(rng, m.kind)}
+		for j, k := range m.keys {
+			args = append(args, k)
+			if m.kind == "mset" {
+				args = append(args, m.vals[j])
+			}
+		}
+		m.raw = EncodeReq(args...)
+		return m
+	}
+	rounds := c.Pick(40, 1500)
+	for rd := 0; rd < rounds; rd++ {
+		if !env.P.Alive() {
+			c.Violate(Violation{Class: "proxy-died", Shape: "burst", Detail: env.P.PanicLine(), Witness: env.P.OutputTail(2000)})
+			return
+		}
+		before := env.Cl.LogLen()
+		var all []*mreq
+		var cls []*Client
+		var wg sync.WaitGroup
+		nper := make([]int, 2)
+		for ci := 0; ci < 2; ci++ {
+			cl, err := env.Dial()
+			must(err, "dial")
+			cls = append(cls, cl)
+			var burst []byte
+			n := 2 + rng.Intn(6)
+			nper[ci] = n
+			for k := 0; k < n; k++ {
+				m := gen()
+				all = append(all, m)
+				burst = append(burst, m.raw...)
+			}
+			wg.Add(1)
+			go func(cl *Client, b []byte) { defer wg.Done(); cl.Send(b) }(cl, burst)
+		}
+		wg.Wait()
+		ok := true
+		for ci, cl := range cls {
+			if !cl.WaitReplies(nper[ci], 10*time.Second) {
+				ok = false
+			}
+		}
+		log := env.Cl.Log()[before:]
+		for _, cl := range cls {
+			cl.Close()
+		}
+		if !ok {
+			c.Violate(Violation{Class: "no-reply-to-burst", Shape: "burst", Detail: "a burst of multi-key requests was not fully answered within 10 s (proxy alive=" + fmt.Sprint(env.P.Alive()) + ")"})
+			continue
+		}
+		for _, m := range all {
+			ref := map[int][][]byte{}
+			for j, k := range m.keys {
+				sl := KeySlot(k)
+				ref[sl] = append(ref[sl], k)
+				if m.kind == "mset" {
+					ref[sl] = append(ref[sl], m.vals[j])
+				}
+			}
+			nfr := 0
+			bad := ""
+			used := map[int]bool{}
+			var frs []string
+			for _, r := range log {
+				if !containsTok(r, m.tok+":") {
+					continue
+				}
+				nfr++
+				frs = append(frs, Q(r.Raw))
+				sl := KeySlot(r.Args[1])
+				want := ref[sl]
+				if r.Cmd != m.kind || used[sl] || len(want) != len(r.Args)-1 {
+					bad = "fragment " + Q(r.Raw) + " does not equal the reference group of slot " + itoa(sl)
+					break
+				}
+				used[sl] = true
+				for j := range want {
+					if !bytesEq(want[j], r.Args[j+1]) {
+						bad = "fragment " + Q(r.Raw) + " differs from the reference group of slot " + itoa(sl)
+					}
+				}
+				if !bytesEq(EncodeReq(r.Args...), r.Raw) {
+					bad = "fragment on the wire is not canonical RESP: " + Q(r.Raw)
+				}
+			}
+			if bad == "" && nfr != len(ref) {
+				bad = itoa(nfr) + " fragments on the wire for " + itoa(len(ref)) + " distinct slots"
+			}
+			c.Eval(1)
+			c.Distinct("burst/" + m.kind + "/" + itoa(len(m.keys)) + "/" + itoa(len(ref)))
+			if bad != "" {
+				c.Violate(Violation{Class: "fragment-keys-differ", Shape: "burst/" + m.kind, Detail: "several multi-key requests in one write (limit 400): " + bad,
+					Witness: map[string]interface{}{"request": Q(m.raw), "fragments_on_wire": frs}})
+			} else {
+				c.Count("wire_fragments_checked", int64(nfr))
+			}
+		}
+	}
+	if mf := env.Cl.MalformedSeen(); len(mf) > 0 {
+		c.Violate(Violation{Class: "fragment-malformed", Shape: "burst", Detail: "a node received a corrupt request stream: " + mf[0].Err + ": " + Q(mf[0].Context)})
 	}
 }
 
